@@ -134,7 +134,10 @@ impl Arena {
         let commit = self.commit.get();
         let offset = self.offset.get();
 
-        let beg = (offset + alignment - 1) & !(alignment - 1);
+        // Align the absolute address, not just the offset: the reservation
+        // base is only guaranteed to be page-aligned.
+        let base = self.base.as_ptr() as usize;
+        let beg = ((base + offset + alignment - 1) & !(alignment - 1)) - base;
         let end = beg + bytes;
 
         if end > commit {
